@@ -18,7 +18,9 @@ INVALID_STMT = [
     # constructs that leave no value, where a value is needed
     "a = b = 3;", "y = x++;", "x += 1 + 2;", "return (x = 1);", "z = if (c) { 1; };", "z = while (c) { };", "return foreach v in [1] { };",
     "y = function ff() { return 1; };", "return switch (1) { case 2 { 1; } };", "x = 1 + (y = 2);", "t(x = 1);", "x = [y = 1];", "return x -= 1;",
-    "if (x = 1) { }", "while (x++) { }", "z = local w;", "x = [1,, 2];", "x = f(1,, 2);", "x = f(1;", "}", "x = 1; }", "x = (;", "x = );",
+    "if (x = 1) { }", "while (x++) { }", "z = local w;",
+    # parameter lists that are never closed, with one or more stray tokens before the body
+    "function q(a b { }", "function q(a, b c { x = 1; }", "function q(a 1 { }", 'function q(a "s" { }', "function q(a ; { }", "function q(a b c { }", "function q(a, { }", "function q(a = { }", "x = [1,, 2];", "x = f(1,, 2);", "x = f(1;", "}", "x = 1; }", "x = (;", "x = );",
 ]
 INVALID_EXPR = ['"unterminated', "/unterminated", "(1 + ", "[1, 2", '{"a": 1', "1 + ", "* 2", "a ? b ? 1 : 2 : 3", "#", "1 @ 2", "\x00",
                 "99999999999999999999", "(3 = 4)", "f(1,, 2)", ")", "if", "(a ? 1 : b ? 2 : 3)", "(1 += 2)", '("s" -= 1)', "[1 *= 2]"]
